@@ -492,6 +492,8 @@ void vp_inconclusive(const char* fmt, ...) {
 
 // ------------------------------------------------------------------ watchdog
 static vp_stranded_cb_t g_on_stranded;
+static void (*volatile g_periodic)(void);
+void vp_set_periodic(void (*cb)(void)) { g_periodic = cb; }
 static int g_runtime_mode;
 
 void vp_mark_done(void) { atomic_store(&g_done, 1); }
@@ -507,6 +509,7 @@ static void* wd_main(void* arg) {
   for (;;) {
     vp_real_sleep_us(5000);
     if (atomic_load(&g_done) || atomic_load(&g_finishing)) return NULL;
+    if (g_periodic) g_periodic();
     if (g_runtime_mode && vp_cfg.mode != VP_MODE_NOHOOK) {
       if (vp_ghost_quiescent()) {
         if (++q_streak >= q_need) {
